@@ -5,8 +5,29 @@ ID = "C06"
 MOD = "harness.props.c06"
 T = "MetadorModel.C06."
 LEAN = dict(
-    modules=["MetadorModel.Model.Container"],
-    theorems=[],
+    modules=["MetadorModel.Props.C06"],
+    theorems=[T + n for n in (
+        "link_points_to_object",
+        "object_attached_to_node",
+        "object_has_exactly_one_link",
+        "uuids_unique",
+        "schema_records_exact",
+        "package_records_exact",
+        "toc_shape",
+        "no_empty_bookkeeping_groups",
+        "sync_of_inv",
+        "sync_init",
+        "sync_meta",
+        "sync_create_group",
+        "sync_create_dataset",
+        "sync_delete",
+        "sync_reopen",
+        "cache_coherent",
+        "sync_step_partial",
+        "sync_run_partial",
+        "env3_wf",
+        "hist1_obj",
+    )],
     drivers=["drv_ctr"],
 )
 
